@@ -12,6 +12,7 @@ import (
 	"encoding/json"
 	"errors"
 	"fmt"
+	"io"
 	"os"
 	"path/filepath"
 	"strings"
@@ -118,16 +119,13 @@ func readEvents(path string) ([]Event, error) {
 
 	const maxEventLineBytes = 10 * 1024 * 1024
 
-	endsWithNewline := false
-	if info, err := file.Stat(); err == nil && info.Size() > 0 {
-		last := make([]byte, 1)
-		if _, err := file.ReadAt(last, info.Size()-1); err == nil {
-			endsWithNewline = last[0] == '\n'
-		}
-	}
+	// Whether the log ends in '\n' is judged from the bytes the scanner actually
+	// consumed, so a writer extending the file mid-read cannot make a fragment
+	// look like corruption.
+	tail := &lastByteReader{r: file}
 
 	var events []Event
-	scanner := bufio.NewScanner(file)
+	scanner := bufio.NewScanner(tail)
 	scanner.Buffer(make([]byte, 0, 64*1024), maxEventLineBytes)
 	var pending []byte
 	pendingNo := 0
@@ -168,13 +166,29 @@ func readEvents(path string) ([]Event, error) {
 		// Tolerate a truncated final line (common after crashes or partial writes).
 		// Only ignore when the file does not end in '\n'.
 		if err := processLine(pendingNo, pending); err != nil {
-			if !endsWithNewline {
+			if endsWithNewline := tail.seen && tail.last == '\n'; !endsWithNewline {
 				return events, nil
 			}
 			return nil, err
 		}
 	}
 	return events, nil
+}
+
+// lastByteReader remembers the final byte delivered by the wrapped reader.
+type lastByteReader struct {
+	r    io.Reader
+	last byte
+	seen bool
+}
+
+func (l *lastByteReader) Read(p []byte) (int, error) {
+	n, err := l.r.Read(p)
+	if n > 0 {
+		l.last = p[n-1]
+		l.seen = true
+	}
+	return n, err
 }
 
 func formatEventsParseError(path string, lineNo int, line []byte, cause error) error {
